@@ -46,7 +46,7 @@ class Contract:
                  free=None, assumes=(), skip_body=False, replay=None, self_fields=None, abstract_ok=(),
                  entry_ghost=(), exit_ghost=(), consts=None, witness=None, defaults=None,
                  tags=None, global_ghosts=(), result_fn=None, options=None,
-                 quiet_requires=()):
+                 quiet_requires=(), ghost_returns=None):
         self.target = target              # "mokapot.utils.create_chunks" or "mokapot.model.Model.fit"
         self.params = dict(params or {})  # name -> type string (in signature order)
         self.requires = list(requires)
@@ -80,6 +80,9 @@ class Contract:
         # preconditions that are checked at call sites like any other, but are NOT put into the body's VCs as
         # quantified hypotheses (they would fire everywhere); the body gets them through lemma calls only
         self.quiet_requires = list(quiet_requires)
+        # ghost results (defined by `let` in exit_ghost, mentioned in ensures): fresh values at call sites,
+        # visible to the caller's ghost code under the same names
+        self.ghost_returns = dict(ghost_returns or {})
         self.options = dict(options or {})   # engine options (e.g. join_congruence: ground congruence facts for str.join)
         self.global_ghosts = list(global_ghosts)  # spec functions shared between caller and callee (same UF by name)
         self.witness = dict(witness or {})   # ensures text -> {bound var: witness expression} (proof hint)
